@@ -1,10 +1,12 @@
 (* C05 -- Kekule and aromatic forms describe the same molecule; conversions are stable (PARTIAL by design).
    Statements only; proofs in Proofs.KekuleProofs.  Model.Kekule has
      - the boolean specifications kekule_rel / thiele_rel (run on every output of the real code by the check),
-     - the algorithm-level model of Kekule.__prepare_rings (classify_atom, prepare_rings) and of the driver Kekule.kekule
-       (kekule_driver; the backtracking search and calc_implicit are arguments of it: the theorems hold for ANY search).
-   Not theorems (correspondence / search only): that the outputs of the real search are accepted by the checkers, that all
-   enumerated forms aromatise to one form, independence of the numbering. *)
+     - algorithm-level models of Kekule.__prepare_rings (classify_atom, prepare_rings), of the driver Kekule.kekule
+       (kekule_driver; the search and calc_implicit are ARGUMENTS of it: its theorems hold for any search) and of the
+       backtracking search _kekule_component itself (kekule_component).
+   Not theorems (correspondence / search only): that the forms the search finds give every atom the right number of double
+   bonds (the checkers decide that output by output), that all enumerated forms aromatise to one form, that the results
+   of the real code do not depend on the numbering. *)
 From Coq Require Import ZArith List Bool.
 From Model Require Import PyBase Graph Kekule.
 From Proofs Require Import KekuleProofs.
